@@ -526,6 +526,7 @@ var c10Corpus = []string{
 	`(?i)\w`, `(?i)[\w]`, `(?i)\p{Ascii}`, `\Q\E*`, `*a`, `a{1}{2}`, `(?i)[a-z-[A]]`, `[a-z-[b-c]-\d]`, `[a-z-b]`, `[a-z-]`, `[\d-z]`, `[\d-[5]]`,
 	`[a-\x{7a}]`, `[.]`, `é`, `[é]`, `[Ā]`, `\p{Any}`, `\P{^Any}`, `\p{^`, `\p`, `\pZx`, `a{1,}`, `a{9223372036854775807}`, `a{9223372036854775808}`,
 	`(?i)(?-i)`, `((?i)a)a`, `(?i)(a(?-i)a)a`, `(?i:a|b)c`, `(?ii--i:a)`, `(?:a)`, `(?é)`, `[^\n-\x{10ffff}]`, `\777`, `\377`, `\378`, `\08`,
+	`[^\x00-\xfe]`, `[^\x01-\xff]`, `[^\x00-\x{10fffe}]`, `[^\x00-\x{10ffff}]`, `[^\x01-\x{10fffd}]`, `\P{Any}`, `[^\x00-\xfd\xff]`,
 	`[A-[B]]`, `[a-[b]]`, `[\p{Zl}-\p{Zp}]`, `\ud800`, `[\ud800-\udfff]`, `\x{0}`, `\x{}`, `\x{10FFFF}`, `\x{110000}`, `\x{0000000041}`, `(?i)k`, `(?i)[k]`,
 	`(?i)[^k]`, `(?i)ǅ`, `(?i)\x{1c5}`, `(?i)ß`, `(?i)µ`, `(?i)[µ]`, `(a(?i)b|c)d`, `(?i)\Qabc\E`, `\Qab\Ec*`, `a\Q\E*`, `x\Qab`, `[[:alpha:]]`, `[a&&b]`,
 	`\b`, `\z`, `\E`, `\-`, `\ `, `a{,5}`, `a{}`, `{1a}`, `{_a1}`, `{eoi}`, `[\Qa\E]`, `[{a}]`, `\p{Lu}{2}`, `(?i)\p{Lu}`, `(?i)\P{Lu}`, `(?i)\p{Nd}`, `\p{Soft_Dotted}`,
@@ -867,11 +868,14 @@ func c10Leaves(c *Ctx, v c10Variant) {
 				u = m
 			}
 			in := c10RandSet(rng, u)
-			if rng.Intn(4) == 0 && len(in) >= 2 { // reach the upper bound
-				in[len(in)-1] = m
+			if rng.Intn(3) == 0 && len(in) >= 2 { // reach the upper bound, or stop one or two short of it
+				in[len(in)-1] = m - rune(rng.Intn(3))
+				if in[len(in)-2] > in[len(in)-1] {
+					in[len(in)-2] = in[len(in)-1]
+				}
 			}
-			if rng.Intn(4) == 0 && len(in) >= 2 {
-				in[0] = 0
+			if rng.Intn(3) == 0 && len(in) >= 2 && in[1] >= 2 { // start at the lower bound, or just after it
+				in[0] = rune(rng.Intn(3))
 			}
 			out := lex.VerifInvert(c10Clone(in), lex.CharsetOptions{ScanBytes: bytes})
 			key := ""
